@@ -1,6 +1,7 @@
 /-
   PM/CommuteGuard.lean — the decidable guard under which two replace steps with separated ranges both
-  apply after rebasing (C17, `commute_succeeds_replace`): one of the two steps happens entirely inside an
+  apply after rebasing (C17, `commute_succeeds_replace`; with `(from, to, slice)` of a replace-around step in
+  place of one replace step: `commute_succeeds_around`): one of the two steps happens entirely inside an
   element node the other one does not touch.  Specification predicates over the model's data (not models
   of library functions); the harness evaluates them on the pairs it generates (driver op `commuteGuard`)
   and checks the implication on the real code.
@@ -47,5 +48,13 @@ def insideRight : List Node → (f1 t1 e1 f2 t2 e2 : Nat) → Bool
 def commuteGuard (kids : List Node) (f1 t1 : Nat) (s1 : Slice) (f2 t2 : Nat) (s2 : Slice) : Bool :=
   insideLeft kids f1 t1 (depthAt kids f1 - s1.openStart) f2 t2 (depthAt kids f2 - s2.openStart) ||
   insideRight kids f1 t1 (depthAt kids f1 - s1.openStart) f2 t2 (depthAt kids f2 - s2.openStart)
+
+/-- **the shape of every replace-around step the library builds** (`lift`, `wrap`, `set_node_markup`,
+    `set_block_type`), hypothesis `AroundShape` of the C17 theorems about replace-around steps: ranges in
+    order, the slice's open depths covered by its content, the insertion point inside the slice.  Tied:
+    driver op `aroundShape`, compared with the same predicate on the real step objects, and required to
+    hold for every replace-around step the harness obtains from a high-level operation. -/
+def aroundShape (f t gf gt : Nat) (sl : Slice) (ins : Nat) : Bool :=
+  sl.wf && decide ((ins : Int) ≤ sl.size) && decide (f ≤ gf) && decide (gf ≤ gt) && decide (gt ≤ t)
 
 end PM
